@@ -1345,11 +1345,42 @@ func (*log).Stat
       invariant[stat_segments] stats.Segments == rangeindex + 1
       invariant[stat_messages] seqMsgs(l) ==> stats.Messages == sumTo(gSeqMsgs, rangeindex + 1)
       invariant[stat_size]     seqSize(l) ==> stats.Size == sumTo(gSeqSize, rangeindex + 1)
+// ================================================================ backup (C20)
+// r names a file of segment j of the log (relative to the segment's directory)
+pred segFile(l *log, j int, r string) :=
+    pathJoin(l.readers[j].segment.Dir, r) == l.readers[j].segment.Log || pathJoin(l.readers[j].segment.Dir, r) == l.readers[j].segment.Index
+
+func (*reader).Backup
+    flags noframe only_copy
+    requires[copy_ok] (forall n string :: pathJoin(dir, n) != r.segment.Log && pathJoin(dir, n) != r.segment.Index) && r.segment.Log != r.segment.Index
+    assigns fPath, fsExists, fsContent, fsSize, fsDirty, dirDirty
+    ensures[copy_segment] err == nil ==> forall n string :: (pathJoin(r.segment.Dir, n) == r.segment.Log || pathJoin(r.segment.Dir, n) == r.segment.Index) ==> copied(pathJoin(r.segment.Dir, n), pathJoin(dir, n))
+    ensures[copy_frame]   forall p string :: (forall n string :: (pathJoin(r.segment.Dir, n) == r.segment.Log || pathJoin(r.segment.Dir, n) == r.segment.Index) ==> p != pathJoin(dir, n))
+                              ==> fsContent[p] == old(fsContent)[p] && fsExists[p] == old(fsExists)[p] && fsSize[p] == old(fsSize)[p]
+
 func (*log).Backup
-    flags locks lockonly noframe
+    flags locks only_locks only_copy noframe
     requires[locks] nolocks()
+    // the target directory holds none of the log's own files, and the segments have pairwise different files
+    requires[copy_ok] len(l.readers) >= 1 && (forall j :: 0 <= j && j < len(l.readers) ==> l.readers[j] != nil && l.readers[j].segment.Log != l.readers[j].segment.Index
+                            && (forall r string :: pathJoin(dir, r) != l.readers[j].segment.Log && pathJoin(dir, r) != l.readers[j].segment.Index))
+                      && (forall i int, j int, r string :: 0 <= i && i < j && j < len(l.readers) && segFile(l, i, r) ==> !segFile(l, j, r))
+    assigns fPath, fsExists, fsContent, fsSize, fsDirty, dirDirty
+    // C20: every segment - the head included - has both its files in the target under the same names, with the
+    // content they had when Backup started (or left alone by the skip rule of copyFile)
+    ensures[copy_all]    err == nil && !(l.opts.Readonly && len(l.readers) == 1) ==>
+                             forall j int, r string :: 0 <= j && j < len(l.readers) && segFile(l, j, r) ==> copied(pathJoin(l.readers[j].segment.Dir, r), pathJoin(dir, r))
+    // the source is left unchanged
+    ensures[copy_source] forall j :: 0 <= j && j < len(l.readers) ==>
+                             fsContent[l.readers[j].segment.Log] == old(fsContent)[l.readers[j].segment.Log] && fsContent[l.readers[j].segment.Index] == old(fsContent)[l.readers[j].segment.Index]
+                             && fsExists[l.readers[j].segment.Log] == old(fsExists)[l.readers[j].segment.Log] && fsExists[l.readers[j].segment.Index] == old(fsExists)[l.readers[j].segment.Index]
     loop 1
       invariant[locks] held(&l.readersMu) == 1 && (forall a int :: a != &l.readersMu ==> heldAt(a) == 0)
+      invariant[copy_idx]    -1 <= rangeindex && rangeindex < len(l.readers)
+      invariant[copy_done]   forall j int, r string :: 0 <= j && j <= rangeindex && segFile(l, j, r) ==> copied(pathJoin(l.readers[j].segment.Dir, r), pathJoin(dir, r))
+      invariant[copy_rest]   forall p string :: (forall j int, r string :: 0 <= j && j <= rangeindex && segFile(l, j, r) ==> p != pathJoin(dir, r))
+                                 ==> fsContent[p] == old(fsContent)[p] && fsExists[p] == old(fsExists)[p] && fsSize[p] == old(fsSize)[p]
+
 func (*log).Sync
     flags locks only_locks only_sync noframe
     requires[sync_ok] !l.opts.Readonly ==> wOK(l.writer)
